@@ -34,12 +34,20 @@ ASSUMPTIONS = [
 ACCEPTED_SET_ITER = {
     ("Survey._setup_translations", "search_lists"): "only selects which of several equivalent PyXFormErrors is raised first; no successful output depends on it",
     ("Survey._setup_translations", "non_search_lists"): "orders the question names quoted inside that same PyXFormError message only; no successful output depends on it",
-    ("workbook_to_json", "{lang for c in itemset_choices for lang in c[constants.LABEL] if isinstance(c.get(constants.LABEL), dict)}"):
+    ("workbook_to_json", "setcomp lang over c[constants.LABEL], itemset_choices"):
         "keys of the generated 'other' label: every language in the set was already inserted into the translations map, in sheet order, by the list's earlier choices; the label dict's own order is never serialised",
     ("dealias_and_group_headers", "missing"): "at most one required header at every call site (checked below by folding the headers_required arguments), so the joined message has one element",
     ("validate_list_name_extension", "EXTERNAL_INSTANCE_EXTENSIONS"): "text of an error message only; no successful conversion result depends on it",
     ("Translations._find_missing", "self.columns_seen"): "consumer format_missing_translations_msg sorts the columns of every language before joining (checked below)",
 }
+
+def _iter_key(expr):
+    """Key of an iterated expression for the accepted table: a set comprehension is keyed by what it yields and what it
+    ranges over (its filters only shrink the set, so they are not part of the identity); anything else by its text."""
+    if isinstance(expr, ast.SetComp):
+        return f"setcomp {norm(expr.elt)} over " + ", ".join(sorted(norm(g.iter) for g in expr.generators))
+    return norm(expr)
+
 
 ACCEPTED_RMW = {
     ("Survey.get_nsmap", "self.namespaces"): "appends the entities declaration again on every generation; duplicates collapse in the namespace dict (same key, same value), so regenerated XML is identical",
@@ -314,7 +322,7 @@ def run(ctx):
                 # body that only tests membership / raises / adds to a set is order-free
                 if how == "for" and _order_free_body(consumer):
                     status = "loop body is order-insensitive (membership tests, set.add, any-order raise)"
-            acc = ACCEPTED_SET_ITER.get((fi.qualname, norm(it_expr)))
+            acc = ACCEPTED_SET_ITER.get((fi.qualname, _iter_key(it_expr)))
             if status:
                 r4.ok(key, status, fi.loc(it_expr))
             elif acc:
